@@ -1,6 +1,604 @@
-import Uds.Model.Encode
+import Uds.Props.C07
 import Uds.Spec.Request
+import Uds.Props.C19
+import Uds.Props.C14
+/-
+  C01 — each request sent is the exact ISO-14229 encoding of the call's arguments.
+  For every request builder: when `make_request` succeeds, the payload is `sid :: [sub-function] ++ parameters`
+  in the layout of the standard, and the independent server-side decoder (`Spec.decodeRequest`) recovers the
+  caller's arguments; inside a suppress-positive-response block only bit 7 of the sub-function byte changes.
+-/
 namespace Uds.Props.C01
-open Uds Uds.Model
-theorem placeholder : True := trivial
+open Uds Uds.Model Uds.Props.C07
+
+/-! ### payload of a request object -/
+
+theorem payload_nosf (name : String) (d : Bytes) (s : Service) (hs : svc name = s) (hu : s.useSubfn = false) (hsid : s.sid < 256) :
+    (mkReq name none (some d)).getPayload = .ok (UInt8.ofNat s.sid :: d) := by
+  simp [mkReq, Request.getPayload, hs, hu, packB, hsid, bind, Except.bind, pure, Except.pure]
+
+theorem payload_sf (name : String) (sf : Nat) (d : Option Bytes) (s : Service) (hs : svc name = s) (hu : s.useSubfn = true)
+    (hsid : s.sid < 256) (hsf : sf < 256) :
+    (mkReq name (some sf) d).getPayload = .ok (UInt8.ofNat s.sid :: UInt8.ofNat sf :: d.getD []) := by
+  simp [mkReq, Request.getPayload, hs, hu, packB, hsid, hsf, bind, Except.bind, pure, Except.pure]
+
+/-- inside a suppress-positive-response block (`get_payload(suppress_positive_response=True)`): the same bytes with bit 7 of the
+    sub-function byte set -/
+theorem payload_sf_suppressed (name : String) (sf : Nat) (d : Option Bytes) (s : Service) (hs : svc name = s) (hu : s.useSubfn = true)
+    (hsid : s.sid < 256) (hsf : sf < 128) :
+    (mkReq name (some sf) d).getPayload (some true) = .ok (UInt8.ofNat s.sid :: UInt8.ofNat (sf + 128) :: d.getD []) := by
+  have hall : ∀ x : Fin 128, setBit7 x.val = x.val + 128 := by decide
+  have h : setBit7 sf = sf + 128 := hall ⟨sf, hsf⟩
+  simp [mkReq, Request.getPayload, hs, hu, packB, hsid, h, show sf + 128 < 256 by omega, bind, Except.bind, pure, Except.pure]
+
+theorem svc_wdbi : svc "WriteDataByIdentifier" = ⟨"WriteDataByIdentifier", 0x2E, false, true⟩ := by decide
+theorem svc_rdbi : svc "ReadDataByIdentifier" = ⟨"ReadDataByIdentifier", 0x22, false, true⟩ := by decide
+theorem svc_io : svc "InputOutputControlByIdentifier" = ⟨"InputOutputControlByIdentifier", 0x2F, false, true⟩ := by decide
+theorem svc_ddd : svc "DynamicallyDefineDataIdentifier" = ⟨"DynamicallyDefineDataIdentifier", 0x2C, true, true⟩ := by decide
+theorem svc_dtc : svc "ReadDTCInformation" = ⟨"ReadDTCInformation", 0x19, true, true⟩ := by decide
+theorem svc_rft : svc "RequestFileTransfer" = ⟨"RequestFileTransfer", 0x38, false, true⟩ := by decide
+theorem svc_auth : svc "Authentication" = ⟨"Authentication", 0x29, true, true⟩ := by decide
+
+/-! ### WriteDataByIdentifier -/
+
+theorem wdbi_frame_decodes (cfg : DidCfg) (did : Int) (v : Bytes) (r : Request) (view : Spec.SrvView)
+    (h : wdbiMakeRequest cfg did v = .ok r) :
+    r.getPayload = .ok (0x2E :: (toBE 2 did.toNat ++ v)) ∧
+    Spec.decodeRequest view (0x2E :: (toBE 2 did.toNat ++ v)) = some ⟨0x2E, false, .wdbi did.toNat v⟩ ∧ (did.toNat : Int) = did := by
+  unfold wdbiMakeRequest at h
+  simp only [bind_ok, validateInt_ok, pure_ok, encodeVal_ok] at h
+  obtain ⟨_, ⟨d1, d2⟩, c, _, l, _, b, ⟨_, rfl⟩, rfl⟩ := h
+  refine ⟨payload_nosf _ _ _ svc_wdbi rfl (by decide), ?_, by omega⟩
+  have hlt : did.toNat < 256 ^ 2 := by omega
+  simp [Spec.decodeRequest, Spec.hasSubfn, Spec.decodeNoSubfn, Spec.pBE_toBE 2 _ _ hlt]
+
+/-! ### ReadDataByIdentifier -/
+
+theorem beList_length (ds : List Nat) : (beList 2 ds).length = 2 * ds.length := by
+  induction ds with
+  | nil => simp [beList]
+  | cons d rest ih => simp [beList, ih]; omega
+
+theorem pDidList_beList (ds : List Nat) (fuel : Nat) (hf : ds.length ≤ fuel) (h : ∀ d ∈ ds, d < 65536) :
+    Spec.pDidList fuel (beList 2 ds) = some ds := by
+  induction ds generalizing fuel with
+  | nil => cases fuel <;> simp [Spec.pDidList, beList]
+  | cons d rest ih =>
+    cases fuel with
+    | zero => simp at hf
+    | succ fuel =>
+      have hd : d < 256 ^ 2 := by have := h d (by simp); omega
+      have hne : (beList 2 (d :: rest)).isEmpty = false := by
+        simp [beList]
+        intro h0; have := congrArg List.length h0; simp at this
+      simp only [Spec.pDidList, hne, Bool.false_eq_true, if_false, beList, Spec.pBE_toBE 2 d _ hd]
+      rw [ih fuel (by simp at hf; omega) (fun x hx => h x (by simp [hx]))]
+      rfl
+
+theorem rdbi_frame_decodes (cfg : Option DidCfg) (dids : List Int) (r : Request) (view : Spec.SrvView)
+    (h : rdbiMakeRequest cfg dids = .ok r) :
+    r.getPayload = .ok (0x22 :: beList 2 (dids.map Int.toNat)) ∧
+    Spec.decodeRequest view (0x22 :: beList 2 (dids.map Int.toNat)) = some ⟨0x22, false, .rdbi (dids.map Int.toNat)⟩ ∧
+    (∀ d ∈ dids, (d.toNat : Int) = d) := by
+  unfold rdbiMakeRequest at h
+  simp only [bind_ok, validateDidList_ok, pure_ok] at h
+  obtain ⟨ds, ⟨hr, rfl⟩, _, _, rfl⟩ := h
+  refine ⟨payload_nosf _ _ _ svc_rdbi rfl (by decide), ?_, fun d hd => by have := hr d hd; omega⟩
+  have hall : ∀ d ∈ dids.map Int.toNat, d < 65536 := by
+    intro d hd; simp only [List.mem_map] at hd; obtain ⟨x, hx, rfl⟩ := hd; have := hr x hx; omega
+  have := pDidList_beList (dids.map Int.toNat) (beList 2 (dids.map Int.toNat)).length (by rw [beList_length]; omega) hall
+  simp [Spec.decodeRequest, Spec.hasSubfn, Spec.decodeNoSubfn, this]
+
+/-! ### InputOutputControlByIdentifier -/
+
+/-- the control-enable mask bytes: all ones / zeros on `mask_size` bytes, or the OR of the selected bit masks big-endian on
+    `mask_size` (else the smallest number of) bytes -/
+theorem ioMask_layout (e : IoEntry) (masks : Option MaskArg) (m : Bytes) (h : ioMaskPart e masks = .ok m) :
+    match masks with
+    | none => m = []
+    | some (.all b) => ∃ sz, e.maskSize = some sz ∧ m = List.replicate sz.toNat (if b then 0xFF else 0x00)
+    | some (.named l) => ∃ cfg v, e.mask = some cfg ∧ maskOr cfg l = some v ∧
+        m = toBE (match e.maskSize with | some sz => sz.toNat | none => byteLen v) v := by
+  unfold ioMaskPart at h
+  cases masks with
+  | none => exact ((pure_ok _ _).1 h).symm
+  | some a =>
+    cases a with
+    | all b =>
+      simp only [ioMaskBytes] at h
+      cases hs : e.maskSize with
+      | none => simp [hs] at h
+      | some sz => simp [hs] at h; exact ⟨sz, rfl, h.symm⟩
+    | named l =>
+      simp only [ioMaskBytes] at h
+      cases hm : e.mask with
+      | none => simp [hm] at h
+      | some cfg =>
+        simp only [hm, bind_ok, ioMaskValue_acc, toBytesBE_ok] at h
+        obtain ⟨v, ⟨w, hw, hv⟩, _, rfl⟩ := h
+        have : v = w := by rw [hv]; simp
+        subst this
+        exact ⟨cfg, v, rfl, hw, rfl⟩
+
+/-- the optional inputOutputControlParameter byte -/
+def cpBytes : Option Int → Bytes
+  | some c => [UInt8.ofNat c.toNat]
+  | none => []
+
+theorem io_frame_decodes (cfg : IoCfg) (did : Int) (cp : Option Int) (values : Option Bytes) (masks : Option MaskArg) (r : Request)
+    (h : ioMakeRequest cfg did cp values masks = .ok r) :
+    ∃ e m, cfg.find did.toNat = some e ∧ ioMaskPart e masks = .ok m ∧
+      r.getPayload = .ok (0x2F :: (toBE 2 did.toNat ++ cpBytes cp ++ values.getD [] ++ m)) ∧
+      Spec.decodeRequest { ioHasParam := cp.isSome, ioStateLen := (values.getD []).length }
+          (0x2F :: (toBE 2 did.toNat ++ cpBytes cp ++ values.getD [] ++ m))
+        = some ⟨0x2F, false, .io did.toNat (cp.map Int.toNat) (values.getD []) m⟩ ∧
+      (did.toNat : Int) = did ∧ (∀ c, cp = some c → (c.toNat : Int) = c ∧ c ≤ 3) := by
+  unfold ioMakeRequest at h
+  simp only [bind_ok, validateInt_ok, guardPy_ok, pure_ok] at h
+  obtain ⟨_, ⟨d1, d2⟩, _, hcp, _, _, e, he, c, hc, v, hv, m, hm, rfl⟩ := h
+  have hfind : cfg.find did.toNat = some e := by
+    unfold fetchIoEntry at he
+    cases hf : cfg.find did.toNat with
+    | none => simp [hf] at he
+    | some e' => simp only [hf, bind_ok, pure_ok] at he; obtain ⟨_, _, rfl⟩ := he; rfl
+  have hcp' : ∀ x, cp = some x → 0 ≤ x ∧ x ≤ 3 := by
+    intro x hx; subst hx
+    unfold ioCheckParam at hcp
+    by_cases hh : (x < 0 || x > 3) = true
+    · simp [hh] at hcp
+    · simp at hh; omega
+  have hc' : c = cpBytes cp := by
+    unfold ioParamBytes at hc
+    cases cp with
+    | none => exact ((pure_ok _ _).1 hc).symm
+    | some x => simp only [packB_ok] at hc; exact hc.2
+  have hv' : v = values.getD [] := by
+    unfold ioValueBytes at hv
+    cases values with
+    | none => exact ((pure_ok _ _).1 hv).symm
+    | some x => simp only [encodeVal_ok] at hv; simpa using hv.2
+  subst hc' hv'
+  refine ⟨e, m, hfind, hm, payload_nosf _ _ _ svc_io rfl (by decide), ?_, by omega, fun x hx => by have := hcp' x hx; omega⟩
+  have hlt : did.toNat < 256 ^ 2 := by omega
+  cases cp with
+  | none =>
+    simp only [Spec.decodeRequest, Spec.hasSubfn, Spec.decodeNoSubfn, List.append_assoc, cpBytes, List.nil_append, Option.isSome_none]
+    simp [Spec.pBE_toBE 2 _ _ hlt, Spec.pTake_append]
+  | some x =>
+    simp only [Spec.decodeRequest, Spec.hasSubfn, Spec.decodeNoSubfn, List.append_assoc, cpBytes, Option.isSome_some]
+    simp [Spec.pBE_toBE 2 _ _ hlt, Spec.pU8_cons, Spec.pTake_append]
+    have := hcp' x rfl
+    omega
+
+/-! ### ReadDTCInformation -/
+
+theorem pBE_packDtc (n : Nat) (r : Bytes) (h : n < 2 ^ 24) : Spec.pBE 3 (packDtc n ++ r) = some (n, r) := by
+  obtain ⟨hl, hv⟩ := Uds.Props.C19.pack_dtc_roundtrip n h
+  unfold Spec.pBE
+  have h1 : ¬ (packDtc n ++ r).length < 3 := by simp [hl]
+  have h2 : (packDtc n ++ r).take 3 = packDtc n := by
+    rw [List.take_append_of_le_length (by omega)]; exact List.take_of_length_le (by omega)
+  have h3 : (packDtc n ++ r).drop 3 = r := by
+    rw [List.drop_append_of_le_length (by omega), List.drop_of_length_le (by omega)]; simp
+  simp only [h1, if_false, h2, h3, hv]
+
+/-- the value the caller passed for each ISO parameter name -/
+def dtcArgByName (a : DtcArgs) (sev : Option Int) : String → Option Int
+  | "DTCStatusMask" => a.statusMask
+  | "DTCSeverityMask" => sev
+  | "DTCMaskRecord" => a.dtc
+  | "DTCSnapshotRecordNumber" => a.snapRec
+  | "UserDefDTCSnapshotRecordNumber" => a.snapRec
+  | "DTCStoredDataRecordNumber" => a.snapRec
+  | "DTCExtDataRecordNumber" => a.extRec
+  | "MemorySelection" => a.memSel
+  | "FunctionalGroupIdentifier" => a.fgid
+  | _ => none
+
+/-- the caller's arguments in the order of the ISO request table of the sub-function -/
+def dtcCanon (a : DtcArgs) (sev : Option Int) (sf : Nat) : List (String × Nat) :=
+  ((Spec.dtcLayout sf).getD []).map fun p => (p.1, ((dtcArgByName a sev p.1).getD 0).toNat)
+
+/-- the request group of the code, per sub-function, carries exactly the ISO layout of that sub-function -/
+def groupLayout (sf : Nat) : DtcReqGroup → Option (List (String × Nat))
+  | .noParam => some []
+  | .statusMask => some [("DTCStatusMask", 1)]
+  | .dtcSnap => some [("DTCMaskRecord", 3), ("DTCSnapshotRecordNumber", 1)]
+  | .dtcSnapMem => some [("DTCMaskRecord", 3), ("UserDefDTCSnapshotRecordNumber", 1), ("MemorySelection", 1)]
+  | .snapRec => some [("DTCStoredDataRecordNumber", 1)]
+  | .dtcExt => some [("DTCMaskRecord", 3), ("DTCExtDataRecordNumber", 1)]
+  | .dtcExtMem => some [("DTCMaskRecord", 3), ("DTCExtDataRecordNumber", 1), ("MemorySelection", 1)]
+  | .sevStatus => some [("DTCSeverityMask", 1), ("DTCStatusMask", 1)]
+  | .dtcOnly => some [("DTCMaskRecord", 3)]
+  | .statusMem => some [("DTCStatusMask", 1), ("MemorySelection", 1)]
+  | .extRecOnly => some [("DTCExtDataRecordNumber", 1)]
+  | .wwhMask => some [("FunctionalGroupIdentifier", 1), ("DTCStatusMask", 1), ("DTCSeverityMask", 1)]
+  | .wwhPerm => some [("FunctionalGroupIdentifier", 1)]
+  | .other => if sf == 0x1A || sf == 0x56 then none else none
+
+theorem layout_table : ∀ sf : Fin 128, dtcReqGroup sf.val ≠ .other → Spec.dtcLayout sf.val = groupLayout sf.val (dtcReqGroup sf.val) := by
+  decide +kernel
+
+theorem u8_lt {x : Int} {n : Nat} (h : (n : Int) = x) (hx : x ≤ 0xFF) : n < 256 := by omega
+
+theorem dtc_frame_decodes (std : Nat) (a : DtcArgs) (r : Request) (view : Spec.SrvView)
+    (h : dtcMakeRequest std a = .ok r) (hg : dtcReqGroup a.sf.toNat ≠ .other) :
+    ∃ data sev, dtcSeverity a = .ok sev ∧
+      r.getPayload = .ok (0x19 :: UInt8.ofNat a.sf.toNat :: data) ∧
+      Spec.decodeRequest view (0x19 :: UInt8.ofNat a.sf.toNat :: data) = some ⟨0x19, false, .dtc a.sf.toNat (dtcCanon a sev a.sf.toNat)⟩ ∧
+      (a.sf.toNat : Int) = a.sf := by
+  unfold dtcMakeRequest at h
+  simp only [bind_ok, checkSubfunctionValid_ok, pure_ok] at h
+  obtain ⟨_, ⟨s1, s2, _, _⟩, sev, hsev, d, hd, rfl⟩ := h
+  have hsf : a.sf.toNat < 128 := by omega
+  have hlay := layout_table ⟨a.sf.toNat, hsf⟩ hg
+  simp only at hlay
+  refine ⟨d.getD [], sev, hsev, payload_sf _ _ _ _ svc_dtc rfl (by decide) (by omega), ?_, by omega⟩
+  have hb : (UInt8.ofNat a.sf.toNat).toNat = a.sf.toNat := toNat_ofNat_lt (by omega)
+  have hmod : a.sf.toNat % 128 = a.sf.toNat := Nat.mod_eq_of_lt hsf
+  have hge : ¬ (a.sf.toNat ≥ 128) := by omega
+  simp only [Spec.decodeRequest, Spec.hasSubfn, Spec.decodeSubfn, hb, hmod, hge, decide_false]
+  simp only [List.contains_cons, List.contains_nil, show ((25 : UInt8).toNat == 16) = false by decide, show ((25 : UInt8).toNat == 17) = false by decide,
+    show ((25 : UInt8).toNat == 39) = false by decide, show ((25 : UInt8).toNat == 40) = false by decide, show ((25 : UInt8).toNat == 62) = false by decide,
+    show ((25 : UInt8).toNat == 131) = false by decide, show ((25 : UInt8).toNat == 133) = false by decide, show ((25 : UInt8).toNat == 135) = false by decide,
+    show ((25 : UInt8).toNat == 49) = false by decide, show ((25 : UInt8).toNat == 44) = false by decide, show ((25 : UInt8).toNat == 25) = true by decide,
+    Bool.false_or, Bool.or_true, Bool.true_or, Bool.or_false, if_true, Bool.false_eq_true, if_false]
+  unfold dtcCanon
+  rw [hlay]
+  -- per request group
+  generalize hgr : dtcReqGroup a.sf.toNat = g at hd hg ⊢
+  cases g <;> simp only [dtcData, bind_ok, needInt_ok (Int.le_refl 0), pure_ok] at hd
+  case other => exact absurd rfl hg
+  case noParam => subst hd; simp [groupLayout, Spec.pFields]
+  case statusMask =>
+    obtain ⟨m, ⟨x, e1, _, u1, c1⟩, rfl⟩ := hd
+    simp [groupLayout, Spec.pFields, Spec.pU8_cons, dtcArgByName, e1, ← c1, toNat_ofNat_lt (u8_lt c1 u1), show Spec.pBE 1 = Spec.pU8 from rfl]
+  case dtcSnap =>
+    obtain ⟨n1, ⟨x1, e1, _, u1, c1⟩, n2, ⟨x2, e2, _, u2, c2⟩, rfl⟩ := hd
+    have l1 : n1 < 2 ^ 24 := by omega
+    have l2 : (UInt8.ofNat n2).toNat = n2 := toNat_ofNat_lt (by omega)
+    simp [groupLayout, Spec.pFields, Spec.pU8_cons, dtcArgByName, pBE_packDtc _ _ l1, l2, e1, ← c1, e2, ← c2, show Spec.pBE 1 = Spec.pU8 from rfl]
+  case dtcSnapMem =>
+    obtain ⟨n1, ⟨x1, e1, _, u1, c1⟩, n2, ⟨x2, e2, _, u2, c2⟩, n3, ⟨x3, e3, _, u3, c3⟩, rfl⟩ := hd
+    have l1 : n1 < 2 ^ 24 := by omega
+    have l2 : (UInt8.ofNat n2).toNat = n2 := toNat_ofNat_lt (by omega)
+    have l3 : (UInt8.ofNat n3).toNat = n3 := toNat_ofNat_lt (by omega)
+    simp [groupLayout, Spec.pFields, Spec.pU8_cons, dtcArgByName, pBE_packDtc _ _ l1, l2, l3, e1, ← c1, e2, ← c2, e3, ← c3, show Spec.pBE 1 = Spec.pU8 from rfl]
+  case snapRec =>
+    obtain ⟨n1, ⟨x1, e1, _, u1, c1⟩, rfl⟩ := hd
+    have l1 : (UInt8.ofNat n1).toNat = n1 := toNat_ofNat_lt (by omega)
+    simp [groupLayout, Spec.pFields, Spec.pU8_cons, dtcArgByName, l1, e1, ← c1, show Spec.pBE 1 = Spec.pU8 from rfl]
+  case dtcExt =>
+    obtain ⟨n1, ⟨x1, e1, _, u1, c1⟩, n2, ⟨x2, e2, _, u2, c2⟩, rfl⟩ := hd
+    have l1 : n1 < 2 ^ 24 := by omega
+    have l2 : (UInt8.ofNat n2).toNat = n2 := toNat_ofNat_lt (by omega)
+    simp [groupLayout, Spec.pFields, Spec.pU8_cons, dtcArgByName, pBE_packDtc _ _ l1, l2, e1, ← c1, e2, ← c2, show Spec.pBE 1 = Spec.pU8 from rfl]
+  case dtcExtMem =>
+    obtain ⟨n1, ⟨x1, e1, _, u1, c1⟩, n2, ⟨x2, e2, _, u2, c2⟩, n3, ⟨x3, e3, _, u3, c3⟩, rfl⟩ := hd
+    have l1 : n1 < 2 ^ 24 := by omega
+    have l2 : (UInt8.ofNat n2).toNat = n2 := toNat_ofNat_lt (by omega)
+    have l3 : (UInt8.ofNat n3).toNat = n3 := toNat_ofNat_lt (by omega)
+    simp [groupLayout, Spec.pFields, Spec.pU8_cons, dtcArgByName, pBE_packDtc _ _ l1, l2, l3, e1, ← c1, e2, ← c2, e3, ← c3, show Spec.pBE 1 = Spec.pU8 from rfl]
+  case sevStatus =>
+    obtain ⟨n1, ⟨x1, e1, _, u1, c1⟩, n2, ⟨x2, e2, _, u2, c2⟩, rfl⟩ := hd
+    have l1 : (UInt8.ofNat n1).toNat = n1 := toNat_ofNat_lt (by omega)
+    have l2 : (UInt8.ofNat n2).toNat = n2 := toNat_ofNat_lt (by omega)
+    simp [groupLayout, Spec.pFields, Spec.pU8_cons, dtcArgByName, l1, l2, e1, ← c1, e2, ← c2, show Spec.pBE 1 = Spec.pU8 from rfl]
+  case dtcOnly =>
+    obtain ⟨n1, ⟨x1, e1, _, u1, c1⟩, rfl⟩ := hd
+    have l1 : n1 < 2 ^ 24 := by omega
+    have h0 := pBE_packDtc n1 [] l1
+    rw [List.append_nil] at h0
+    simp [groupLayout, Spec.pFields, dtcArgByName, h0, e1, ← c1]
+  case statusMem =>
+    obtain ⟨n1, ⟨x1, e1, _, u1, c1⟩, n2, ⟨x2, e2, _, u2, c2⟩, rfl⟩ := hd
+    have l1 : (UInt8.ofNat n1).toNat = n1 := toNat_ofNat_lt (by omega)
+    have l2 : (UInt8.ofNat n2).toNat = n2 := toNat_ofNat_lt (by omega)
+    simp [groupLayout, Spec.pFields, Spec.pU8_cons, dtcArgByName, l1, l2, e1, ← c1, e2, ← c2, show Spec.pBE 1 = Spec.pU8 from rfl]
+  case extRecOnly =>
+    obtain ⟨n1, ⟨x1, e1, _, u1, c1⟩, rfl⟩ := hd
+    have l1 : (UInt8.ofNat n1).toNat = n1 := toNat_ofNat_lt (by omega)
+    simp [groupLayout, Spec.pFields, Spec.pU8_cons, dtcArgByName, l1, e1, ← c1, show Spec.pBE 1 = Spec.pU8 from rfl]
+  case wwhMask =>
+    obtain ⟨n1, ⟨x1, e1, _, u1, c1⟩, n2, ⟨x2, e2, _, u2, c2⟩, n3, ⟨x3, e3, _, u3, c3⟩, rfl⟩ := hd
+    have l1 : (UInt8.ofNat n1).toNat = n1 := toNat_ofNat_lt (by omega)
+    have l2 : (UInt8.ofNat n2).toNat = n2 := toNat_ofNat_lt (by omega)
+    have l3 : (UInt8.ofNat n3).toNat = n3 := toNat_ofNat_lt (by omega)
+    simp [groupLayout, Spec.pFields, Spec.pU8_cons, dtcArgByName, l1, l2, l3, e1, ← c1, e2, ← c2, e3, ← c3, show Spec.pBE 1 = Spec.pU8 from rfl]
+  case wwhPerm =>
+    obtain ⟨n1, ⟨x1, e1, _, u1, c1⟩, rfl⟩ := hd
+    have l1 : (UInt8.ofNat n1).toNat = n1 := toNat_ofNat_lt (by omega)
+    simp [groupLayout, Spec.pFields, Spec.pU8_cons, dtcArgByName, l1, e1, ← c1, show Spec.pBE 1 = Spec.pU8 from rfl]
+
+/-! ### RequestFileTransfer -/
+
+/-- layout of the request (`_partial`: the Spec-decoder round trip for this service is established by the correspondence suite only):
+    `38 moop len16 path [dfi] [width uncompressed compressed]`, the DataFormatIdentifier defaulting to 0x00 when the mode takes one,
+    both sizes on `width` bytes big-endian -/
+theorem rft_layout_partial (moop : Int) (path : Bytes) (dfi : Option Nat) (fs : Option FilesizeArg) (r : Request)
+    (h : rftMakeRequest moop path dfi fs = .ok r) :
+    ∃ (x : Option (Int ⊕ FilesizeObj)) (f : Option FilesizeObj) (z : Bytes),
+      rftBuildArg fs = .ok x ∧ rftSize moop x = .ok f ∧ rftSizeBytes f = .ok z ∧
+      (f = none → z = []) ∧
+      (∀ g, f = some g → ∀ u c, g.uncompressed = some u → g.compressed = some c →
+          z = [UInt8.ofNat g.width] ++ toBE g.width u.toNat ++ toBE g.width c.toNat ∧ u.toNat < 256 ^ g.width ∧ c.toNat < 256 ^ g.width ∧ g.width < 256) ∧
+      r.getPayload = .ok (0x38 :: ([UInt8.ofNat moop.toNat] ++ toBE 2 path.length ++ path ++
+          (if rftUsesDfi moop then [UInt8.ofNat (dfi.getD 0)] else []) ++ z)) ∧
+      (1 ≤ moop ∧ moop ≤ 6) ∧ (1 ≤ path.length ∧ path.length ≤ 0xFFFF) ∧ (rftUsesDfi moop = true → dfi.getD 0 < 256) := by
+  have hdom := rft_accepted_in_domain moop path dfi fs ⟨r, h⟩
+  obtain ⟨hm, hp, hdfi, _, _⟩ := hdom
+  unfold rftMakeRequest at h
+  simp only [bind_ok, guardPy_ok, pure_ok] at h
+  obtain ⟨x, hx, _, _, _, _, _, _, dv, hd1, f, hf1, db, hd2, sb, hf2, rfl⟩ := h
+  have hdb : db = (if rftUsesDfi moop then [UInt8.ofNat (dfi.getD 0)] else []) ∧ (rftUsesDfi moop = true → dfi.getD 0 < 256) := by
+    unfold rftDfi at hd1
+    by_cases hu : rftUsesDfi moop = true
+    · simp only [hu, if_true, pure_ok] at hd1 ⊢; subst hd1
+      simp only [rftDfiBytes, packB_ok] at hd2
+      exact ⟨hd2.2, fun _ => hd2.1⟩
+    · simp only [hu, Bool.false_eq_true, if_false] at hd1 hdfi ⊢
+      subst hdfi; simp at hd1; subst hd1
+      simp only [rftDfiBytes, pure_ok] at hd2
+      exact ⟨hd2.symm, by simp⟩
+  obtain ⟨hdb1, hdlt⟩ := hdb
+  subst hdb1
+  refine ⟨x, f, sb, hx, hf1, hf2, ?_, ?_, payload_nosf _ _ _ svc_rft rfl (by decide), hm, hp, hdlt⟩
+  · intro hf; subst hf; simp only [rftSizeBytes, pure_ok] at hf2; exact hf2.symm
+  · intro g hg u c hu hc; subst hg
+    simp only [rftSizeBytes, bind_ok, toBytesBE_ok, pure_ok, hu, hc, sizeBytes] at hf2
+    obtain ⟨wb, ⟨hw, rfl⟩, ub, ⟨hult, rfl⟩, cb, ⟨hclt, rfl⟩, rfl⟩ := hf2
+    have hw' : g.width < 256 := by simpa using hw
+    refine ⟨by simp [toBE, Nat.mod_eq_of_lt hw'], hult, hclt, hw'⟩
+
+/-! ### Authentication -/
+
+theorem lenPrefixed_eq (p : Option Bytes) (b : Bytes) (h : lenPrefixed p = .ok b) :
+    b = toBE 2 (p.getD []).length ++ p.getD [] ∧ (p.getD []).length < 65536 := by
+  unfold lenPrefixed at h
+  cases p with
+  | none => simp at h; subst h; simp [toBE]
+  | some x =>
+    by_cases hx : x.length > 0xFFFF
+    · simp [hx] at h
+    · simp [hx] at h; subst h; simp; omega
+
+theorem pLenFields_step (n : String) (ns : List String) (x r : Bytes) (h : x.length < 65536) :
+    Spec.pLenFields (n :: ns) (toBE 2 x.length ++ x ++ r) = (Spec.pLenFields ns r).map ((n, x) :: ·) := by
+  simp only [Spec.pLenFields]; rw [Spec.pLen16_append x r h]
+
+theorem pLenFields_last (n : String) (x : Bytes) (h : x.length < 65536) :
+    Spec.pLenFields [n] (toBE 2 x.length ++ x) = some [(n, x)] := by
+  have := pLenFields_step n [] x [] h
+  simp only [List.append_nil] at this
+  rw [this]; simp [Spec.pLenFields]
+
+/-- what the Spec decoder must find for each task: the parameters of the ISO request table, absent byte strings as empty -/
+def authCanon (a : AuthArgs) : Nat → List (String × Bytes)
+  | 0 => []
+  | 8 => []
+  | 1 => [("communicationConfiguration", [UInt8.ofNat (a.commConf.getD 0).toNat]), ("certificateClient", a.certClient.getD []), ("challengeClient", a.challengeClient.getD [])]
+  | 2 => [("communicationConfiguration", [UInt8.ofNat (a.commConf.getD 0).toNat]), ("certificateClient", a.certClient.getD []), ("challengeClient", a.challengeClient.getD [])]
+  | 3 => [("proofOfOwnershipClient", a.pownClient.getD []), ("ephemeralPublicKeyClient", a.ephKeyClient.getD [])]
+  | 4 => [("certificateEvaluationId", toBE 2 (a.certEvalId.getD 0).toNat), ("certificateData", a.certData.getD [])]
+  | 5 => [("communicationConfiguration", [UInt8.ofNat (a.commConf.getD 0).toNat]), ("algorithmIndicator", a.algo.getD [])]
+  | _ => [("algorithmIndicator", a.algo.getD []), ("proofOfOwnershipClient", a.pownClient.getD []), ("challengeClient", a.challengeClient.getD []),
+          ("additionalParameter", a.addParam.getD [])]
+
+theorem needAlgo_eq (p : Option Bytes) (b : Bytes) (h : needAlgo p = .ok b) : b = p.getD [] ∧ b.length = 16 := by
+  unfold needAlgo at h
+  cases p with
+  | none => simp at h
+  | some x =>
+    by_cases hx : x.length = 16
+    · simp [hx] at h; subst h; exact ⟨rfl, hx⟩
+    · simp [hx] at h
+
+theorem auth_frame_decodes (a : AuthArgs) (r : Request) (view : Spec.SrvView) (h : authMakeRequest a = .ok r) :
+    ∃ data, r.getPayload = .ok (0x29 :: UInt8.ofNat a.task.toNat :: data) ∧
+      Spec.decodeRequest view (0x29 :: UInt8.ofNat a.task.toNat :: data) = some ⟨0x29, false, .auth a.task.toNat (authCanon a a.task.toNat)⟩ ∧
+      (a.task.toNat : Int) = a.task := by
+  unfold authMakeRequest at h
+  simp only [bind_ok, validateInt_ok, pure_ok] at h
+  obtain ⟨_, ⟨t1, t2⟩, d, hd, rfl⟩ := h
+  refine ⟨d.getD [], payload_sf _ _ _ _ svc_auth rfl (by decide) (by omega), ?_, by omega⟩
+  have hcases : a.task.toNat = 0 ∨ a.task.toNat = 8 ∨ a.task.toNat = 1 ∨ a.task.toNat = 2 ∨ a.task.toNat = 3 ∨ a.task.toNat = 4 ∨ a.task.toNat = 5 ∨
+      a.task.toNat = 6 ∨ a.task.toNat = 7 := by omega
+  rcases hcases with ht | ht | ht | ht | ht | ht | ht | ht | ht <;> rw [ht] at hd ⊢ <;>
+    simp only [authData, bind_ok, needInt_ok (Int.le_refl 0), pure_ok] at hd
+  · subst hd; simp [Spec.decodeRequest, Spec.hasSubfn, Spec.decodeSubfn, authCanon]
+  · subst hd; simp [Spec.decodeRequest, Spec.hasSubfn, Spec.decodeSubfn, authCanon]
+  · obtain ⟨cc, ⟨x, e, _, u, c⟩, xb, hx, yb, hy, rfl⟩ := hd
+    obtain ⟨rfl, lx⟩ := lenPrefixed_eq _ _ hx
+    obtain ⟨rfl, ly⟩ := lenPrefixed_eq _ _ hy
+    have hcc : cc < 256 := by omega
+    simp only [Spec.decodeRequest, Spec.hasSubfn, Spec.decodeSubfn, authCanon, Option.getD_some, List.append_assoc, List.cons_append, List.nil_append]
+    have h1 := pLenFields_step "certificateClient" ["challengeClient"] (a.certClient.getD []) (toBE 2 (a.challengeClient.getD []).length ++ a.challengeClient.getD []) lx
+    simp only [List.append_assoc] at h1
+    simp [Spec.pTake, h1, pLenFields_last _ _ ly, e, ← c]
+  · obtain ⟨cc, ⟨x, e, _, u, c⟩, xb, hx, yb, hy, rfl⟩ := hd
+    obtain ⟨rfl, lx⟩ := lenPrefixed_eq _ _ hx
+    obtain ⟨rfl, ly⟩ := lenPrefixed_eq _ _ hy
+    simp only [Spec.decodeRequest, Spec.hasSubfn, Spec.decodeSubfn, authCanon, Option.getD_some, List.append_assoc, List.cons_append, List.nil_append]
+    have h1 := pLenFields_step "certificateClient" ["challengeClient"] (a.certClient.getD []) (toBE 2 (a.challengeClient.getD []).length ++ a.challengeClient.getD []) lx
+    simp only [List.append_assoc] at h1
+    simp [Spec.pTake, h1, pLenFields_last _ _ ly, e, ← c]
+  · obtain ⟨xb, hx, yb, hy, rfl⟩ := hd
+    obtain ⟨rfl, lx⟩ := lenPrefixed_eq _ _ hx
+    obtain ⟨rfl, ly⟩ := lenPrefixed_eq _ _ hy
+    simp only [Spec.decodeRequest, Spec.hasSubfn, Spec.decodeSubfn, authCanon, Option.getD_some, List.append_assoc, List.cons_append, List.nil_append]
+    have h1 := pLenFields_step "proofOfOwnershipClient" ["ephemeralPublicKeyClient"] (a.pownClient.getD []) (toBE 2 (a.ephKeyClient.getD []).length ++ a.ephKeyClient.getD []) lx
+    simp only [List.append_assoc] at h1
+    simp [h1, pLenFields_last _ _ ly]
+  · obtain ⟨id, ⟨x, e, _, u, c⟩, xb, hx, rfl⟩ := hd
+    obtain ⟨rfl, lx⟩ := lenPrefixed_eq _ _ hx
+    simp only [Spec.decodeRequest, Spec.hasSubfn, Spec.decodeSubfn, authCanon, Option.getD_some, List.append_assoc, List.cons_append, List.nil_append]
+    have ht2 : Spec.pTake 2 (toBE 2 id ++ (toBE 2 (a.certData.getD []).length ++ a.certData.getD [])) = some (toBE 2 id, toBE 2 (a.certData.getD []).length ++ a.certData.getD []) :=
+      Spec.pTake_append' _ _ (by simp)
+    simp [ht2, pLenFields_last _ _ lx, e, ← c]
+  · obtain ⟨cc, ⟨x, e, _, u, c⟩, al, hal, rfl⟩ := hd
+    obtain ⟨rfl, l16⟩ := needAlgo_eq _ _ hal
+    simp only [Spec.decodeRequest, Spec.hasSubfn, Spec.decodeSubfn, authCanon, Option.getD_some, List.append_assoc, List.cons_append, List.nil_append]
+    have ht : Spec.pTake 16 (a.algo.getD []) = some (a.algo.getD [], []) := by
+      have := Spec.pTake_append' (a.algo.getD []) [] l16; simpa using this
+    simp [Spec.pTake, ht, e, ← c, l16, List.take_of_length_le (show (a.algo.getD []).length ≤ 16 by omega)]
+  all_goals
+    obtain ⟨al, hal, xb, hx, yb, hy, zb, hz, rfl⟩ := hd
+    obtain ⟨rfl, l16⟩ := needAlgo_eq _ _ hal
+    obtain ⟨rfl, lx⟩ := lenPrefixed_eq _ _ hx
+    obtain ⟨rfl, ly⟩ := lenPrefixed_eq _ _ hy
+    obtain ⟨rfl, lz⟩ := lenPrefixed_eq _ _ hz
+    simp only [Spec.decodeRequest, Spec.hasSubfn, Spec.decodeSubfn, authCanon, Option.getD_some, List.append_assoc, List.cons_append, List.nil_append]
+    have ht := Spec.pTake_append' (a.algo.getD []) (toBE 2 (a.pownClient.getD []).length ++ (a.pownClient.getD [] ++ (toBE 2 (a.challengeClient.getD []).length ++ (a.challengeClient.getD [] ++ (toBE 2 (a.addParam.getD []).length ++ a.addParam.getD []))))) l16
+    have h1 := pLenFields_step "proofOfOwnershipClient" ["challengeClient", "additionalParameter"] (a.pownClient.getD []) (toBE 2 (a.challengeClient.getD []).length ++ (a.challengeClient.getD [] ++ (toBE 2 (a.addParam.getD []).length ++ a.addParam.getD []))) lx
+    have h2 := pLenFields_step "challengeClient" ["additionalParameter"] (a.challengeClient.getD []) (toBE 2 (a.addParam.getD []).length ++ a.addParam.getD []) ly
+    simp only [List.append_assoc] at h1 h2
+    simp [ht, h1, h2, pLenFields_last _ _ lz]
+
+/-! ### memory-addressed requests (widths: `Uds.Props.C14`) -/
+
+theorem mem_requests_decode (ml : MemLoc) (w data : Bytes) (dfi : Nat) (view : Spec.SrvView)
+    (hA : C14.Width ml.alfidA) (hM : C14.Width ml.alfidM) (h : ml.wire = .ok w) (hd : dfi < 256) :
+    Spec.decodeRequest view (0x23 :: w) = some ⟨0x23, false, .readMem (ml.alfidA / 8) (ml.alfidM / 8) ml.address.toNat ml.size.toNat⟩ ∧
+    Spec.decodeRequest view (0x3D :: (w ++ data)) = some ⟨0x3D, false, .writeMem (ml.alfidA / 8) (ml.alfidM / 8) ml.address.toNat ml.size.toNat data⟩ ∧
+    Spec.decodeRequest view (0x34 :: UInt8.ofNat dfi :: w) = some ⟨0x34, false, .download dfi (ml.alfidA / 8) (ml.alfidM / 8) ml.address.toNat ml.size.toNat⟩ ∧
+    Spec.decodeRequest view (0x35 :: UInt8.ofNat dfi :: w) = some ⟨0x35, false, .upload dfi (ml.alfidA / 8) (ml.alfidM / 8) ml.address.toNat ml.size.toNat⟩ := by
+  have h0 := (C14.wire_decodes ml w [] hA hM h).1
+  have h1 := (C14.wire_decodes ml w data hA hM h).1
+  rw [List.append_nil] at h0
+  refine ⟨?_, ?_, ?_, ?_⟩
+  · simp [Spec.decodeRequest, Spec.hasSubfn, Spec.decodeNoSubfn, Spec.memVal, h0]
+  · simp [Spec.decodeRequest, Spec.hasSubfn, Spec.decodeNoSubfn, Spec.memVal, h1]
+  · simp [Spec.decodeRequest, Spec.hasSubfn, Spec.decodeNoSubfn, Spec.memVal, h0, Spec.pU8_cons, toNat_ofNat_lt hd]
+  · simp [Spec.decodeRequest, Spec.hasSubfn, Spec.decodeNoSubfn, Spec.memVal, h0, Spec.pU8_cons, toNat_ofNat_lt hd]
+
+/-! ### DynamicallyDefineDataIdentifier: clear -/
+
+theorem dddClear_frame_decodes (did : Option Int) (r : Request) (view : Spec.SrvView) (h : dddClearMakeRequest did = .ok r) :
+    ∃ data, r.getPayload = .ok (0x2C :: 3 :: data) ∧
+      Spec.decodeRequest view (0x2C :: 3 :: data) = some ⟨0x2C, false, .dddClear (did.map Int.toNat)⟩ := by
+  unfold dddClearMakeRequest at h
+  cases did with
+  | none =>
+    simp only [pure_ok] at h; subst h
+    exact ⟨[], payload_sf _ _ _ _ svc_ddd rfl (by decide) (by decide), by simp [Spec.decodeRequest, Spec.hasSubfn, Spec.decodeSubfn]⟩
+  | some d =>
+    simp only [bind_ok, validateInt_ok, pure_ok] at h
+    obtain ⟨_, ⟨d1, d2⟩, rfl⟩ := h
+    refine ⟨toBE 2 d.toNat, payload_sf _ _ _ _ svc_ddd rfl (by decide) (by decide), ?_⟩
+    have hlt : d.toNat < 256 ^ 2 := by omega
+    have := Spec.pBE_toBE 2 d.toNat [] hlt
+    rw [List.append_nil] at this
+    have hne : (toBE 2 d.toNat).isEmpty = false := by simp [toBE]
+    simp [Spec.decodeRequest, Spec.hasSubfn, Spec.decodeSubfn, this, hne]
+
+/-! ### the simple services -/
+
+/-- ISO rendering of the arguments of a simple entry point -/
+def simpleCanon : Entry → Option Spec.ReqVal
+  | .changeSession n => some (.session n.toNat)
+  | .ecuReset t => some (.reset t.toNat)
+  | .testerPresent => some (.testerPresent 0)
+  | .controlDtc t d => some (.controlDtc t.toNat (d.getD []))
+  | .accessTiming t r => some (.accessTiming t.toNat (r.getD []))
+  | .routineControl rid ct d => some (.routine ct.toNat rid.toNat (d.getD []))
+  | .transferData s d => some (.transferData s.toNat (d.getD []))
+  | .transferExit d => some (.transferExit (d.getD []))
+  | _ => none
+
+theorem svc_dsc : svc "DiagnosticSessionControl" = ⟨"DiagnosticSessionControl", 0x10, true, true⟩ := by decide
+theorem svc_er : svc "ECUReset" = ⟨"ECUReset", 0x11, true, true⟩ := by decide
+theorem svc_tp : svc "TesterPresent" = ⟨"TesterPresent", 0x3E, true, true⟩ := by decide
+theorem svc_cd : svc "ControlDTCSetting" = ⟨"ControlDTCSetting", 0x85, true, true⟩ := by decide
+theorem svc_at : svc "AccessTimingParameter" = ⟨"AccessTimingParameter", 0x83, true, true⟩ := by decide
+theorem svc_rc : svc "RoutineControl" = ⟨"RoutineControl", 0x31, true, true⟩ := by decide
+theorem svc_td : svc "TransferData" = ⟨"TransferData", 0x36, false, true⟩ := by decide
+theorem svc_te : svc "RequestTransferExit" = ⟨"RequestTransferExit", 0x37, false, false⟩ := by decide
+
+theorem sf_byte {n : Nat} (h : n < 128) : (UInt8.ofNat n).toNat % 128 = n ∧ ¬ ((UInt8.ofNat n).toNat ≥ 128) := by
+  have : (UInt8.ofNat n).toNat = n := toNat_ofNat_lt (by omega)
+  rw [this]; omega
+
+theorem simple_frame_decodes (std : Nat) (e : Entry) (r : Request) (v : Spec.ReqVal) (view : Spec.SrvView)
+    (h : e.makeRequest std = .ok r) (hv : simpleCanon e = some v) :
+    ∃ frame sid, r.getPayload = .ok frame ∧ Spec.decodeRequest view frame = some ⟨sid, false, v⟩ := by
+  cases e <;> simp only [simpleCanon, Option.some.injEq, reduceCtorEq] at hv <;> (try subst hv)
+  case changeSession n =>
+    simp [Entry.makeRequest, dscMakeRequest, map_ok, bind_ok, validateInt_ok] at h
+    obtain ⟨⟨h1, h2⟩, rfl⟩ := h
+    obtain ⟨b1, b2⟩ := sf_byte (show n.toNat < 128 by omega)
+    refine ⟨_, 0x10, payload_sf _ _ _ _ svc_dsc rfl (by decide) (by omega), ?_⟩
+    simp [Spec.decodeRequest, Spec.hasSubfn, Spec.decodeSubfn, b1, b2]; omega
+  case ecuReset t =>
+    simp [Entry.makeRequest, ecuResetMakeRequest, map_ok, bind_ok, validateInt_ok] at h
+    obtain ⟨⟨h1, h2⟩, rfl⟩ := h
+    obtain ⟨b1, b2⟩ := sf_byte (show t.toNat < 128 by omega)
+    refine ⟨_, 0x11, payload_sf _ _ _ _ svc_er rfl (by decide) (by omega), ?_⟩
+    simp [Spec.decodeRequest, Spec.hasSubfn, Spec.decodeSubfn, b1, b2]; omega
+  case testerPresent =>
+    simp only [Entry.makeRequest, testerPresentMakeRequest, pure_ok] at h; subst h
+    exact ⟨_, 0x3E, payload_sf _ _ _ _ svc_tp rfl (by decide) (by decide), by simp [Spec.decodeRequest, Spec.hasSubfn, Spec.decodeSubfn]⟩
+  case controlDtc t d =>
+    simp [Entry.makeRequest, controlDtcMakeRequest, map_ok, bind_ok, validateInt_ok] at h
+    obtain ⟨⟨h1, h2⟩, rfl⟩ := h
+    obtain ⟨b1, b2⟩ := sf_byte (show t.toNat < 128 by omega)
+    refine ⟨_, 0x85, payload_sf _ _ _ _ svc_cd rfl (by decide) (by omega), ?_⟩
+    simp [Spec.decodeRequest, Spec.hasSubfn, Spec.decodeSubfn, b1, b2]; omega
+  case transferData s d =>
+    simp [Entry.makeRequest, transferDataMakeRequest, map_ok, bind_ok, validateInt_ok] at h
+    obtain ⟨⟨h1, h2⟩, rfl⟩ := h
+    refine ⟨_, 0x36, payload_nosf _ _ _ svc_td rfl (by decide), ?_⟩
+    simp [Spec.decodeRequest, Spec.hasSubfn, Spec.decodeNoSubfn, Spec.pU8_cons, toNat_ofNat_lt (show s.toNat < 256 by omega)]
+  case transferExit d =>
+    simp only [Entry.makeRequest, transferExitMakeRequest, pure_ok] at h; subst h
+    cases d with
+    | none =>
+      refine ⟨[0x37], 0x37, ?_, by simp [Spec.decodeRequest, Spec.hasSubfn, Spec.decodeNoSubfn]⟩
+      simp [mkReq, Request.getPayload, packB, bind, Except.bind, pure, Except.pure, svc_te]
+    | some b => exact ⟨_, 0x37, payload_nosf _ _ _ svc_te rfl (by decide), by simp [Spec.decodeRequest, Spec.hasSubfn, Spec.decodeNoSubfn]⟩
+  case accessTiming t rec =>
+    have hdom := (simple_accepts_iff std (.accessTiming t rec) (by intro a b c hh; cases hh) (by intro a b hh; cases hh)).1 ⟨r, h⟩
+    obtain ⟨h1, h2, _⟩ := hdom
+    have hr : r = mkReq "AccessTimingParameter" (some t.toNat) (some (rec.getD [])) := by
+      simp only [Entry.makeRequest, accessTimingMakeRequest, bind_ok, validateInt_ok, ite_ok, throw_ok, and_false, false_or, pure_ok, exists_and_left,
+        exists_eq_left', exists_const, exists_false, and_false, false_and] at h
+      obtain ⟨_, _, _, _, rfl⟩ := h; rfl
+    subst hr
+    obtain ⟨b1, b2⟩ := sf_byte (show t.toNat < 128 by omega)
+    refine ⟨_, 0x83, payload_sf _ _ _ _ svc_at rfl (by decide) (by omega), ?_⟩
+    simp [Spec.decodeRequest, Spec.hasSubfn, Spec.decodeSubfn, b1, b2]; omega
+  case routineControl rid ct d =>
+    simp only [Entry.makeRequest, routineControlMakeRequest, bind_ok, validateInt_ok, pure_ok] at h
+    obtain ⟨_, ⟨r1, r2⟩, _, ⟨c1, c2⟩, rfl⟩ := h
+    obtain ⟨b1, b2⟩ := sf_byte (show ct.toNat < 128 by omega)
+    refine ⟨_, 0x31, payload_sf _ _ _ _ svc_rc rfl (by decide) (by omega), ?_⟩
+    have hlt : rid.toNat < 256 ^ 2 := by omega
+    simp [Spec.decodeRequest, Spec.hasSubfn, Spec.decodeSubfn, b1, b2, Spec.pBE_toBE 2 _ _ hlt]; omega
+
+/-! ### positive-response suppression: only bit 7 of the sub-function byte differs, and the decoder reads it back -/
+
+theorem suppress_decodes (view : Spec.SrvView) (sid : UInt8) (sf : Nat) (data : Bytes) (d : Spec.Decoded)
+    (hs : Spec.hasSubfn sid.toNat = true) (hsf : sf < 128)
+    (h : Spec.decodeRequest view (sid :: UInt8.ofNat sf :: data) = some d) :
+    Spec.decodeRequest view (sid :: UInt8.ofNat (sf + 128) :: data) = some { d with suppress := true } ∧ d.suppress = false := by
+  have b0 : (UInt8.ofNat sf).toNat = sf := toNat_ofNat_lt (by omega)
+  have b1 : (UInt8.ofNat (sf + 128)).toNat = sf + 128 := toNat_ofNat_lt (by omega)
+  simp only [Spec.decodeRequest, hs, if_true, b0, b1, Nat.mod_eq_of_lt hsf, show (sf + 128) % 128 = sf by omega] at h ⊢
+  cases hv : Spec.decodeSubfn sid.toNat sf data with
+  | none => simp [hv] at h
+  | some v =>
+    simp only [hv, Option.map_some, Option.some.injEq] at h ⊢
+    subst h
+    simp; omega
+
+/-- services without a sub-function cannot carry the suppress bit: `get_payload(suppress_positive_response=True)` refuses -/
+theorem no_subfn_no_suppress (r : Request) (s : Service) (hs : r.service = some s) (hu : s.useSubfn = false) :
+    r.getPayload (some true) = .error .valueErr := by
+  simp [Request.getPayload, hs, hu, throw, throwThe, MonadExceptOf.throw]
+
+/-! ### non-vacuity -/
+example : ∃ r, wdbiMakeRequest { entries := [(0x1234, some 2)] } 0x1234 [0xBE, 0xEF] = .ok r := ⟨_, rfl⟩
+example : ∃ r, dtcMakeRequest 2020 { sf := 0x19, dtc := some 0x000102, extRec := some 4, memSel := some 7 } = .ok r := ⟨_, rfl⟩
+example : Spec.decodeRequest {} [0x19, 0x99, 0x00, 0x01, 0x02, 0x04, 0x07] =
+    some ⟨0x19, true, .dtc 0x19 [("DTCMaskRecord", 258), ("DTCExtDataRecordNumber", 4), ("MemorySelection", 7)]⟩ := by decide
+
 end Uds.Props.C01
